@@ -172,7 +172,8 @@ PROPS = {
         module="Prom.Props.C06",
         areas=[dict(area="reg", quick=1200, thorough=50000,
                     classes=["admission-wrong", "admission-error-kind", "unregister-wrong", "harness-panic"],
-                    mask=[(gather_names, None)])],
+                    mask=[(gather_names, None)]),
+               dict(area="creg", quick=600, thorough=30000, classes=["registry-not-linearizable", "admission-wrong", "stuck", "harness-panic"])],
         rule=REG_RULE,
         trusted=["descriptor ids / dimension hashes are the model's FNV-1a values (C15 relates them to structure up to collisions)",
                  "the oracle applies the admission rule to the collector's descriptors in the collector's own order (first offending descriptor decides the error kind)"],
@@ -190,7 +191,8 @@ PROPS = {
         module="Prom.Props.C14",
         areas=[dict(area="reg", quick=1200, thorough=50000,
                     classes=["family-mixes-types", "mixed-kinds-same-name", "harness-panic"],
-                    mask=[(gather_types, None), (r"^err:\w+$", "err")])],
+                    mask=[(gather_types, None), (r"^err:\w+$", "err")]),
+               dict(area="creg", quick=600, thorough=30000, classes=["family-mixes-types", "stuck", "harness-panic"])],
         rule=REG_RULE + "; non-trivial additionally counts cases with several collectors under one name",
         trusted=["a sample's value is read through the family's declared type with proto2 default-on-read (as the encoders do)"],
     ),
